@@ -48,6 +48,80 @@ def export(conf):
     return (";".join(alines) or "-", ";".join(glines) or "-")
 
 
+def snapshot(conf):
+    """the state a conformation holds when calculate_pka starts, as plain Python data (the same content `export` writes)"""
+    atoms = list(conf.atoms)
+    idx = {id(a): i for i, a in enumerate(atoms)}
+    gidx = {id(g): i for i, g in enumerate(conf.groups)}
+    A = [(a.element, a.name, a.group_type or "", tuple(idx[id(b)] for b in a.bonded_atoms if id(b) in idx), (a.x, a.y, a.z), (a.res_num, a.chain_id)) for a in atoms]
+    G = [(g.type, g.residue_type, float(g.charge), float(g.model_pka), bool(g.titratable), bool(g.atom.cysteine_bridge), idx.get(id(g.atom), -1),
+          tuple(idx.get(id(a), -1) for a in g.interaction_atoms_for_acids), tuple(idx.get(id(a), -1) for a in g.interaction_atoms_for_bases),
+          tuple(gidx.get(id(c), -1) for c in g.covalently_coupled_groups), (g.x, g.y, g.z), g.label) for g in conf.groups]
+    return A, G
+
+
+class Snapshots:
+    """records `snapshot(conf)` of every conformation whose calculate_pka is called inside the `with` block"""
+
+    def __init__(self):
+        self.snaps = []
+
+    def __enter__(self):
+        import propka.conformation_container as CC
+        self.CC = CC
+        self.orig = CC.ConformationContainer.calculate_pka
+        me = self
+
+        def wrapped(conf, version, options):
+            me.snaps.append((conf.name, snapshot(conf)))
+            return me.orig(conf, version, options)
+        CC.ConformationContainer.calculate_pka = wrapped
+        return self
+
+    def __exit__(self, *a):
+        self.CC.ConformationContainer.calculate_pka = self.orig
+
+
+def far_extension_problems(old, new, P, R=20.0):
+    """the hypotheses of the Lean structure `FarExtension` (Props/C05.lean), evaluated on two recorded states: `old` (a part alone)
+    and `new` (the part followed by another part); [] if they all hold"""
+    import propka.energy as E
+    (A, G), (A2, G2) = old, new
+    probs = []
+    na, ng = len(A), len(G)
+    if len(A2) < na or len(G2) < ng:
+        return ["the second state has fewer atoms or groups"]
+    if A2[:na] != A:
+        k = next(i for i in range(na) if A2[i] != A[i])
+        probs.append("atom tables differ at index %d: %r vs %r" % (k, A[k][:4], A2[k][:4]))
+    if [g[:11] for g in G2[:ng]] != [g[:11] for g in G]:
+        k = next(i for i in range(ng) if G2[i][:11] != G[i][:11])
+        probs.append("group tables differ at index %d (%s)" % (k, G[k][11]))
+    for g in G:
+        if any(not (0 <= a < na) for a in g[7] + g[8]) or not (0 <= g[6] < na):
+            probs.append("old group %s refers to an atom outside the old table" % g[11])
+    for a in A:
+        if any(not (0 <= b < na) for b in a[3]):
+            probs.append("an old atom is bonded to an atom outside the old table")
+            break
+    for g in G2[ng:]:
+        if any(a < na for a in g[7] + g[8]):
+            probs.append("new group %s has an old interaction atom" % g[11])
+        if g[0] == "BBC" and (not g[7] or not g[8]):
+            probs.append("new BBC group %s without interaction atoms" % g[11])
+    r2 = R * R
+    oldpts = [a[4] for a in A] + [g[10] for g in G]
+    newpts = [a[4] for a in A2[na:]] + [g[10] for g in G2[ng:]]
+    dmin = min([sum((p - q) ** 2 for p, q in zip(x, y)) for x in oldpts for y in newpts] or [float("inf")])
+    if dmin < r2:
+        probs.append("an old and a new atom or centre are only %.3f A apart" % dmin ** 0.5)
+    cuts = [P.desolv_cutoff_squared <= r2, P.buried_cutoff_squared <= r2, P.coulomb_cutoff2_squared <= r2, P.coulomb_cutoff2 <= R,
+            E.UNK_BACKBONE_DISTANCE1 <= R] + [v[2] <= R for v in P.backbone_NH_hydrogen_bond.values()] + [v[2] <= R for v in P.backbone_CO_hydrogen_bond.values()]
+    if not all(cuts):
+        probs.append("a cut-off of the parameter set exceeds %g A" % R)
+    return probs
+
+
 def setup_records(conf):
     """(queries, real results) of the group set-up: class name and defining atom of every group, and what setup_atoms left
     (centre as bit patterns, interaction atoms for acids / for bases as indices into conf.atoms)"""
